@@ -1,27 +1,2 @@
-(* C07 — File Data PDU.  State of the code BEFORE the repairs: the round-trip statements are
-   false; witnesses below (each replayed on the implementation by harness/props/c07.py). *)
 From Coq Require Import ZArith List Bool.
-From SP Require Import Base.Result Base.Bytes Model.PduHeader Model.FileData Spec.FileDataSpec Proofs.FileDataProofs.
-Import ListNotations.
-Open Scope Z_scope.
-
-Theorem C07_unpack_pack_empty_refuted :
-  exists c q, fd_valid c q /\ fd_pack (fd_pdu_of c q) = Ok (fd_layout c q) /\
-              fd_unpack (fd_layout c q) = Err EValue.
-Proof. exact fd_unpack_pack_empty_refuted. Qed.
-Print Assumptions C07_unpack_pack_empty_refuted.
-Theorem C07_unpack_crc_in_data_refuted :
-  exists c q p, fd_valid c q /\ fd_unpack (fd_layout c q) = Ok p /\
-                fp_data q = [7] /\ fp_data (fd_params p) = [7; 163; 239].
-Proof. exact fd_unpack_crc_in_data_refuted. Qed.
-Print Assumptions C07_unpack_crc_in_data_refuted.
-Theorem C07_unpack_suffix_in_data_refuted :
-  exists c q p, fd_valid c q /\ fd_unpack (fd_layout c q ++ [65]) = Ok p /\
-                fp_data q = [7] /\ fp_data (fd_params p) = [7; 65].
-Proof. exact fd_unpack_suffix_in_data_refuted. Qed.
-Print Assumptions C07_unpack_suffix_in_data_refuted.
-Theorem C07_unpack_meta_len_refuted :
-  exists c q p, fd_valid c q /\ fd_unpack (fd_layout c q) = Ok p /\
-                fd_dlen c q = 11 /\ h_dlen (fd_hdr p) = 6 /\ fd_pack p <> Ok (fd_layout c q).
-Proof. exact fd_unpack_meta_len_refuted. Qed.
-Print Assumptions C07_unpack_meta_len_refuted.
+From SP Require Import Base.Result Base.Bytes Model.PduHeader Model.FileData Spec.FileDataSpec.
